@@ -57,7 +57,15 @@ def oracle_wellformed(case, ctx):
         ctx.label("conflicting_duplicates")
     y = np.array([labs[j] for j in cls])
     if case["y_as_series"]:
-        y_in = pd.Series(y)
+        # labels as a pandas Series; its row labels are not data (a slice or a shuffled split
+        # of a longer Series keeps its labels)
+        yi = case.get("y_index") or "default"
+        idx = {"default": None, "offset": list(range(100, 100 + n)), "shuffled": [(7 * i + 3) % n if n % 7 else (5 * i + 3) % n for i in range(n)]}[yi]
+        if idx is not None and len(set(idx)) != n:
+            idx = list(range(n - 1, -1, -1))
+        y_in = pd.Series(y, index=idx)
+        if idx is not None:
+            ctx.label("y_series_with_row_labels:%s" % yi)
     else:
         y_in = y
     X = panelpool.to_nested(X3) if case["container"] == "nested" else X3
@@ -426,7 +434,7 @@ def wf_cases(draw):
         "label_kind": draw(st.sampled_from(["int", "int_gap", "str", "float"])),
         "unbalanced": draw(st.booleans()), "y_as_series": draw(st.booleans()),
         "container": draw(st.sampled_from(["nested", "numpy3d"])),
-        "n_new": draw(st.sampled_from([0, 6, 12])),
+        "n_new": draw(st.sampled_from([0, 6, 12])), "y_index": draw(st.sampled_from(["default", "offset", "shuffled"])),
     }
 
 
@@ -462,7 +470,8 @@ def enum_wf_every_kind(tier):
         yield {"spec": {"kind": kind, "random_state": 7, "n_columns": 2 if kind == "cec" else 1, "max_ensemble_size": 2}, "n_classes": k,
                "n_train": 10 if k < 4 else 12, "t": 24,
                "seed": 1234 + k, "separable": not dup, "prefit": prefit, "dup": dup, "label_kind": lk, "unbalanced": k == 3,
-               "y_as_series": lk == "str", "container": "nested" if prefit else "numpy3d", "n_new": 12}
+               "y_as_series": lk == "str", "container": "nested" if prefit else "numpy3d", "n_new": 12,
+               "y_index": ["default", "offset", "shuffled"][(k + int(prefit) + int(dup)) % 3]}
 
 
 def subchecks():
